@@ -194,6 +194,10 @@ def run_rt(ctx, prop, n_quick, n_thorough, gen_opts=None, with_edits=True):
         dist["oracle_outcomes"][k] = dist["oracle_outcomes"].get(k, 0) + 1
         if idx in (n_corpus, n_corpus + 1):
             ctx.sample({"text": case["text"][:700], "width": case["width"], "edits": prog, "outcome": k})
+        if r is not None and ctx.attribute({"kind": r["kind"], "case": case, "prog": prog, "detail": r}):
+            # belongs to an open known finding as it stands: counted, not shrunk (shrinking is for new failures)
+            ctx.fail({"kind": r["kind"], "case": case, "prog": prog, "detail": r})
+            continue
         if r is not None:
             def sig(x):
                 d = x.get("diffs") or [[""]]
